@@ -4,7 +4,12 @@ NOTES = ("Technique family: static analysis only (Python ast; nothing under /rep
          "they do not depend on run-time values; what is not decided is in level_note and DESIGN.md section 3. "
          "Exit codes: 0 held, 1 violation (VIOLATION line), 2 analysis error (ANALYSIS-ERROR line: parse failure, vanished "
          "anchor, instance count below the hand-confirmed floor, failed self-test, internal exception). "
-         "thorough = quick + self-test of the rules on AST-computed broken and benign variants of /repo's current source.")
+         "Before any rule runs the parsed modules are normalised (inert statements, comparison/call spellings, local names) and every "
+         "function whose canonical form equals that of the frozen reference copy sa/reference/EoN (semantics-preserving rewrites only: "
+         "sa/canon.py) is analysed as the reference function, so refactorings do not raise alarms; any other function is analysed as "
+         "written. thorough = quick + self-test of the rules on /repo's current source: AST-computed broken and benign variants, the "
+         "confirmed seeded changes of independent sub-agents recorded for the property (must still be reported) and their "
+         "behaviour-preserving refactorings (must stay silent).")
 
 NOT_APPLICABLE = {
     "C07": "agreement of the solution curves of structurally different ODE systems (EBCM vs pairwise vs effective degree; "
@@ -29,7 +34,8 @@ META = {
   "the loop and after every event); the I-S link set is maintained exactly (exhaustive abstract case analysis: event x "
   "neighbour status x orientation, plus the initial fill); weight plumbing (_get_rate_functions_, edgeweight/nodeweight, "
   "weighted flag <=> label); _ListDict_ invariants; fast_SIR's forwarding, queue discipline, handler scheduling guards, the "
-  "binomial/truncated-exponential helper's shape, and lock-step +-1 rows.",
+  "binomial/truncated-exponential helper's shape, lock-step +-1 rows, and the full-data hand-off of the event-driven path "
+  "(histories built only from executed events).",
   "Not decided: that binomial + truncated exponential equals independent exponential clocks, any distributional equality, numeric rates.",
   "ast: symbolic rate expansion, exhaustive abstract case analysis of incremental set maintenance (R11), call-binding (R1), control-context facts (H-guard), class-invariant rules (R12)"),
  "C02": _m(
@@ -52,7 +58,8 @@ META = {
   "+-1 matching the status written (or one -1/+1 pair on reported statuses for the generic simulators), initial rows sum to "
   "G.order() (linear normal form), first time is tmin, synthetic initial rows are sliced off by the number enqueued, every "
   "reported time is dominated by t<tmax / passes myQueue.add's `time < tmax`, every expovariate rate is guarded against 0, "
-  "and no flag combination of a simulator entry point uses None or an unbound name.",
+  "no flag combination of a simulator entry point uses None or an unbound name, and in Gillespie_simple_contagion the "
+  "move applied is the chosen transition's (candidate sets guarded by exactly the statuses of their key: no stale candidate).",
   "Not decided: monotonicity of time (non-negativity of run-time delays), termination with I=0.",
   "ast: path enumeration through event blocks (R9), control-context domination (R13, R17), flag-enumerating abstract interpreter (R2/R3)"),
  "C05": _m(
@@ -60,7 +67,8 @@ META = {
   "default/rho seeding is int(round(N*rho)) nodes by random.sample(list(G), n); a single node is wrapped; first S and R depend "
   "on initial_recovereds; initially recovered nodes are marked unconditionally before the status map is first read; initial "
   "history entries are at tmin; wrappers forward every initial-condition parameter to the same-named parameter (no crossing, "
-  "no drop, on every branch).",
+  "no drop, on every branch); optional arguments with falsy legitimate values are never tested by truth value; node_status / "
+  "get_statuses (through which per-node statuses at tmin are read) count change times <= t.",
   "Not decided: run-time truthiness of array-typed containers; per-node histories of a run.",
   "ast: guard-shape and ordering rules (R10), call-binding (R1), wrapper data-flow (R16w), parameter use (R16)"),
  "C06": _m(
@@ -85,7 +93,8 @@ META = {
   "return_full_data; every series row has the matching history record (same node, same time variable); histories are built "
   "only from executed events (status filters at the hand-off) and start at tmin; _transform_to_node_history_ resets the "
   "default entry for events at tmin in every loop; node_status and get_statuses both compute statuses[#(change times <= t) - 1]; "
-  "summary applies +1/-1 at the change time; t/S/I/R read the summary.",
+  "summary applies +1/-1 at the change time; t/S/I/R read the summary; pred_inf_time (which becomes the history's infection "
+  "time) is lowered only together with a queued transmission.",
   "Not decided: equality of reconstructed and running counts as numbers.",
   "ast: control dependence on return_full_data (R7c), history pairing (R9.C10), hand-off and sibling-shape rules"),
  "C11": _m(
@@ -93,14 +102,16 @@ META = {
   "inf_time <= rec_time[source] and inf_time < pred_inf_time[v] (comparators as the property states), pred_inf_time paired "
   "with every Q.add, candidates are the susceptible neighbours; myQueue pushes only under time < tmax with (time, counter) "
   "keys; adapters bind user rules without crossing; percolation builders add every node and exactly the edges delay <= "
-  "duration; get_infected_nodes removes initially recovered nodes before taking the out-component.",
+  "duration; get_infected_nodes removes initially recovered nodes before taking the out-component; the initially infected set "
+  "is the requested one (None-tests, never truthiness; single node wrapped).",
   "Not decided: the Dijkstra argument itself, tie handling inside the heap beyond the counter.",
   "ast: control-context facts for scheduling guards (H-guard), queue discipline (R13), role agreement of builders (R14), R1"),
  "C12": _m(
   "basic_discrete_SIR / percolation_based_discrete_SIR bind every argument to the same-named parameter of discrete_SIR; one "
   "Bernoulli test per (infectious, susceptible neighbour) contact with the susceptibility test first; infection <=> flag "
   "cleared <=> nS -= 1; generation hand-over; one row per step by +1 in time under t[-1] < tmax; initial row sums to N and "
-  "counts initial_recovereds; percolate_network keeps G's nodes and draws once per edge.",
+  "counts initial_recovereds; percolate_network keeps G's nodes and draws once per edge; the initial set is the requested one "
+  "(None-tests, never truthiness).",
   "Not decided: transition probabilities as numbers.",
   "ast: call-binding (R1), contact-loop shape rules (DISC), row rules (R9), R14"),
  "C13": _m(
@@ -114,9 +125,10 @@ META = {
   "In analytic.py and simulation.py no value known to be a node (loop variable over G, nodelist, neighbours, edges, initial "
   "sets) subscripts anything but a node-keyed map / graph view, no position subscripts a node-keyed map, adjacency matrices "
   "are built in nodelist order wherever a nodelist is in scope, nodelist is forwarded by wrappers, and degree-class arrays are "
-  "indexed by the degree of the node whose status names them.",
+  "indexed by the degree of the node whose status names them; every loop that fixes the position of a degree class in a packed "
+  "state vector uses one order on both sides (R4o); a node label is never used as a truth value (TRUTHY) or compared by identity.",
   "Not decided: floating-point rounding under re-ordering.",
-  "ast: node/position kind inference (R6), role rules for degree-class arrays, call-binding for nodelist"),
+  "ast: node/position kind inference (R6), role rules for degree-class arrays, layout-order agreement (R4o), call-binding for nodelist, TRUTHY/IDENT"),
  "C15": _m(
   "Gillespie_complex_contagion: loop runs exactly while total_weight()>0 and t<tmax; clock is Exp(total_weight()) under a >0 "
   "guard before the loop and after every event; select, ask the chooser on pre-event statuses, write; the changed node and "
@@ -127,9 +139,11 @@ META = {
  "C16": _m(
   "_ListDict_: every change of weight[k] paired with the same change of _total_weight; max_weight raised after every raising "
   "store and lowered only by exact recomputation; items/position bijection; choose_random accepts iff random() < "
-  "weight/max_weight on a uniform proposal; total_weight() accessor; insert = remove + update unless weight 0.",
+  "weight/max_weight on a uniform proposal; total_weight() accessor; insert = remove + update unless weight 0; and in the four "
+  "Gillespie simulators the clock rate is the sum of the CURRENT total weights of the candidate sets, recomputed after every event "
+  "(symbolic expansion, RATE / R11c).",
   "Not decided: floating-point drift of _total_weight ('to rounding'); negative increments (outside the quantifier).",
-  "ast: class-invariant rules on symbolic store deltas and control-context facts (R12)"),
+  "ast: class-invariant rules on symbolic store deltas and control-context facts (R12), symbolic rate expansion (RATE)"),
  "C17": _m(
   "estimate_SIR_prob_size_from_dir_perc = (|in-component|, |out-component|) of a node of the largest SCC of the whole H over "
   "H.order(); estimate_SIR_prob_size = largest component of percolate_network(G,p) over G.order() twice; wrappers build H "
@@ -139,15 +153,18 @@ META = {
  "C18": _m(
   "Who-may-draw: only module-level random.* / legacy np.random.* (no private generators, re-seeding, time/hash/id/os entropy, "
   "entropy imports; positive fixture must fire); no iteration/pop/list() over a set in the continuous-time simulators and what "
-  "they reach; selection lists sorted(); no draw control dependent on return_full_data; full-data hand-off reads only executed events.",
+  "they reach (set algebra on keys views included); selection lists sorted(); no draw control dependent on return_full_data; "
+  "full-data hand-off reads only executed events; no simulator modifies its arguments (a repeated call sees the same inputs).",
   "Not decided: byte equality across processes (a two-execution property).",
-  "ast: forbidden-source scan with positive fixture (R7a), container-kind inference for set iteration (R7b), control dependence (R7c)"),
+  "ast: forbidden-source scan with positive fixture (R7a), container-kind inference for set iteration (R7b), control dependence (R7c), argument-effect analysis (R5)"),
  "C19": _m(
   "No public simulator or ODE entry point stores into, deletes from, reshapes, augments in place or calls a mutator on an "
   "object that may alias one of its arguments, directly or through any package function, queue handler or ODE right-hand "
-  "side it calls (flow-sensitive alias walk: same / view; bottom-up effect summaries to a fixpoint); no global statements.",
+  "side it calls (flow-sensitive alias walk: same / view; bottom-up effect summaries to a fixpoint); no global statements; a "
+  "mapping of defaultdict rows that the package itself produces (get_Pnk) is read only with keys of the row read (R5d: a miss "
+  "would insert into the caller's object).",
   "Not decided: 'returns identical results' beyond absence of effects and hidden state.",
-  "ast: interprocedural argument-effect analysis (R5)"),
+  "ast: interprocedural argument-effect analysis (R5), read-inserts rule for defaultdict rows (R5d)"),
  "C20": _m(
   "PGF lambdas parsed into Pk . (coef * x**(ks-c)) and differentiated by the power rule in the checker: psi' = d psi, psi'' = "
   "d psi' over the full support 0..maxk; estimate_R0 = T psi''(1)/psi'(1) with T = tau/(tau+gamma); get_Pk / get_Pnk counting "
